@@ -302,6 +302,12 @@ def run(ctx) -> None:
         parse_nodes = {}
         for eng in ("v2version", "v1version"):
             cs = shapes.find_calls(prog, gate, f"{eng}.parse_version_info")
+            if not cs:
+                ctx.bad("R3", f"{GATE}: returns True without parsing the new version against the pattern",
+                        f"the gate contains no call of {eng}.parse_version_info: a version computed by the increment logic (e.g. week 53 for a part that admits 00-52) "
+                        f"is announced although it does not match the configured pattern in full", loc=gate.loc(), witness={"version": "v2018w52.1001", "pattern": "vYYYYw0W.BUILD", "date": "2018-12-31"},
+                        what=f"gate: {eng}.parse_version_info({p_new}, {p_pat})")
+                continue
             ctx.require(len(cs) == 1, f"gate: expected one {eng}.parse_version_info call")
             parse_nodes[eng] = gcfg.node_containing(cs[0])
             ctx.check("R3", [unparse(a) for a in cs[0].args] == [p_new, p_pat], f"gate: {eng}.parse_version_info({p_new}, {p_pat})",
